@@ -247,6 +247,20 @@ class StmtMixin:
         R: list = []
         res = []
         for q, v in self.ev(st.exc, p, R):
+            if v.tag == "val":
+                # `raise <opaque value>`: a control class or an instance of one (else TypeError)
+                others = []
+                for cn in L.CTRL:
+                    is_c = Or(v.z == L.clsobj(cn), L.exc_pred(cn)(v.z))
+                    others.append(is_c)
+                    q2 = q.fork()
+                    q2.assume(is_c)
+                    val = SV("val", If(v.z == L.clsobj(cn), L.VNONE, L.exc_value(v.z)))
+                    res.append(Outcome("raise", q2, ExcV(cn, value=val, site=f"L{st.lineno}")))
+                q3 = q.fork()
+                q3.assume(Not(Or(*others)))
+                res.append(Outcome("raise", q3, ExcV("TypeError", site=f"L{st.lineno}/raise of a non-exception")))
+                continue
             res.append(Outcome("raise", q, self.as_exception(v, q, st)))
         return res + self._raises(R)
 
